@@ -49,7 +49,7 @@ def main():
                                     "minimize": R.random() < 0.5})
     # crossover-heavy GP steps and caller-supplied trackers, for every representation
     for rk in reps:
-        for gname in (["nested"] if quick else ["nested", "arith", "mutual"]):
+        for gname in (["arith", "mutual"] if quick else ["nested", "arith", "mutual", "nested", "arith", "mutual"]):
             configs.append({"rep": rk, "alg": "GP", "grammar": gname, "seed": R.randint(0, 10 ** 6), "init": "standard", "step": "xo",
                             "evals": 60, "pop": 8, "decider": "grow", "minimize": R.random() < 0.5, "own_tracker": R.random() < 0.5})
     for alg in ["GP", "HC", "RS", "OPO"]:
